@@ -30,7 +30,18 @@ def _same_dtype_terms(t):
 
 
 def facts_from(c, pol: bool, out: Set) -> None:
-    """dtype terms known to be non-None when condition c has truth value pol"""
+    """dtype terms known to be non-None when condition c has truth value pol (`out` also remembers the conditions themselves as
+    ("T", c) / ("F", c): a conjunction known false whose other conjuncts are known true makes the remaining one false - the form a
+    chain of guard clauses `if not isinstance(..): return False; if s is None: return False; ...` takes once it is evaluated in line)"""
+    out.add(("T" if pol else "F", c))
+    if c[0] == "bool" and c[1] == "and" and not pol:
+        rest = [x for x in c[2] if ("T", x) not in out]
+        if len(rest) == 1:
+            facts_from(rest[0], False, out)
+    elif c[0] == "bool" and c[1] == "or" and pol:
+        rest = [x for x in c[2] if ("F", x) not in out]
+        if len(rest) == 1:
+            facts_from(rest[0], True, out)
     if c[0] == "bool" and c[1] == "and" and pol:
         for x in c[2]:
             facts_from(x, True, out)
